@@ -45,6 +45,27 @@ mod verif_replay {
                 }
             }
         }
+        // strings with interior NUL characters (every segment after the first costs a link cell) allocated at every fill
+        // level near the end of the capacity
+        for text in ["a\u{0}b", "a\u{0}a\u{0}a\u{0}a\u{0}a\u{0}a\u{0}", "ab\u{0}cd", "\u{0}a", "a\u{0}\u{0}b", "abcdefgh\u{0}abcdefgh\u{0}x", "a\u{0}a\u{0}a\u{0}a\u{0}a\u{0}a\u{0}a\u{0}a\u{0}a\u{0}a\u{0}a\u{0}a\u{0}"] {
+            for free_cells in 0..=40usize {
+                for cstr in [false, true] {
+                    let mut heap = match Heap::with_cell_capacity(64) { Ok(h) => h, Err(_) => continue };
+                    let cap0 = heap.inner.byte_cap;
+                    if 8 * free_cells > cap0 { continue; }
+                    while heap.inner.byte_cap - heap.inner.byte_len > 8 * free_cells {
+                        let _ = heap.push_cell(HeapCellValue::build_with(HeapCellValueTag::Fixnum, 0));
+                    }
+                    if heap.inner.byte_cap != cap0 { continue; }
+                    let ok = if cstr { heap.allocate_cstr(text).is_ok() } else { heap.allocate_pstr(text).is_ok() };
+                    if heap.inner.byte_len > heap.inner.byte_cap {
+                        println!("REPLAY-FAIL {}: text {:?} with {} cells free of {}: byte_len {} > byte_cap {} after the call (result ok={})",
+                                 if cstr { "allocate_cstr" } else { "allocate_pstr" }, text, free_cells, cap0 / 8, heap.inner.byte_len, heap.inner.byte_cap, ok);
+                        heap.inner.byte_len = heap.inner.byte_cap;
+                    }
+                }
+            }
+        }
         // list construction through a reserved section, at every fill level around the exact fit
         for size in 0..=12usize {
             for slack in 0..=3usize {
